@@ -62,7 +62,12 @@ def main():
             if not os.path.exists(mp):
                 continue
             meta = json.load(open(mp))
-            props = sorted(set(re.findall(r"C\d\d", meta.get("caught_now_by", ""))))
+            # the checks that report the seed are listed after "checks:" (the text before it is prose that may name rules
+            # of other properties: "the report of C13-f on arrival was …"); tools/fastreplay.sh reads the same part
+            cnb = meta.get("caught_now_by", "")
+            if "checks:" in cnb:
+                cnb = cnb.split("checks:")[-1]
+            props = sorted(set(re.findall(r"C\d\d", cnb)))
             if only_prop:
                 props = [p for p in props if p == only_prop]
             if props:
